@@ -66,6 +66,8 @@ type Config struct {
 	Labels   bool // record labels of choice points
 	// MapChoice: iteration order of maps with <=3 entries is a free choice point.
 	MapChoice bool
+	// Races enables happens-before race detection on the instrumented field / map accesses (C09 builds).
+	Races bool
 }
 
 // Choice is one recorded choice point.
@@ -107,6 +109,7 @@ type Result struct {
 	Hash    uint64
 	Diverge string
 	Used    [nBud]int
+	Races   []Race
 }
 
 type opKind uint8
@@ -154,6 +157,7 @@ type waiter struct {
 
 // chanState is the scheduler's view of one channel: closed flag and parked threads.
 type chanState struct {
+	vc     vclock
 	closed bool
 	keep   any
 	recvW  []waiter
@@ -188,9 +192,11 @@ type thread struct {
 	fn         func()
 	label      string
 	prio       int // scheduling priority (0 default; stalled threads get negative values)
+	vc         vclock
 }
 
 type timer struct {
+	vc     vclock
 	when   time.Duration
 	seq    int64
 	fire   func(s *Sched)
@@ -237,6 +243,12 @@ type Sched struct {
 	objIDs  map[any]int
 	nextObj int
 
+	envVC    *vclock
+	locs     map[uintptr]*location
+	atomics  map[uintptr]*vclock
+	races    []Race
+	raceSeen map[string]struct{}
+
 	// Data is free for the harness (per-execution state reachable from shims).
 	Data any
 }
@@ -273,6 +285,9 @@ func Run(cfg Config, main func()) *Result {
 		exitAck: make(chan struct{}),
 		chans:   map[uintptr]*chanState{},
 		scopeC:  map[*byte]bool{},
+		locs:    map[uintptr]*location{},
+		atomics: map[uintptr]*vclock{},
+		raceSeen: map[string]struct{}{},
 		objIDs:  map[any]int{},
 		hash:    1469598103934665603,
 	}
@@ -319,7 +334,7 @@ wait:
 	}
 	// teardown
 	s.aborting = true
-	res := &Result{Outcome: s.outcome, Choices: s.choices, Steps: int(s.step), Panic: s.pinfo, Now: s.now, Hash: s.hash, Diverge: s.diverge, Used: s.used}
+	res := &Result{Outcome: s.outcome, Choices: s.choices, Steps: int(s.step), Panic: s.pinfo, Now: s.now, Hash: s.hash, Diverge: s.diverge, Used: s.used, Races: s.sortedRaces()}
 	for _, t := range s.threads {
 		if t.exited || t.done {
 			continue
@@ -361,6 +376,15 @@ func (s *Sched) newThread(name string, lib bool, fn func()) *thread {
 	t.op = op{kind: opResume, site: name}
 	t.ready = s.step
 	t.wasEnabled = true
+	if s.cfg.Races {
+		if a := s.actVC(); a != nil {
+			t.vc = a.clone()
+			if s.envVC == nil && s.cur != nil {
+				s.tick(s.cur)
+			}
+		}
+		s.tick(t)
+	}
 	s.threads = append(s.threads, t)
 	go s.threadMain(t)
 	return t
@@ -540,6 +564,22 @@ func (s *Sched) apply(self *thread, tr trans) {
 		t.op.chosen = tr.ci
 		s.mix(uint64(tr.ci) + 17)
 		s.unregister(t)
+	}
+	if s.cfg.Races && t.op.kind == opChan && tr.ci >= 0 {
+		c := &t.op.cases[tr.ci]
+		if tr.kind == tRendezvous {
+			p := tr.p
+			// unbuffered: the send is synchronised before the receive completes and vice versa
+			m := join(join(vclock(nil), t.vc), p.vc)
+			t.vc, p.vc = m.clone(), m.clone()
+			s.tick(t)
+			s.tick(p)
+		} else if c.Dir == SendDir {
+			c.st.vc = join(c.st.vc, t.vc)
+			s.tick(t)
+		} else {
+			t.vc = join(t.vc, c.st.vc)
+		}
 	}
 	var part *thread
 	if tr.kind == tRendezvous {
@@ -958,6 +998,11 @@ func (s *Sched) addTimer(d time.Duration, site string, fire func(s *Sched)) *tim
 	}
 	s.tseq++
 	tm := &timer{when: s.now + d, seq: s.tseq, fire: fire, site: site}
+	if s.cfg.Races {
+		if a := s.actVC(); a != nil {
+			tm.vc = a.clone()
+		}
+	}
 	s.timers = append(s.timers, tm)
 	return tm
 }
@@ -993,6 +1038,13 @@ func (s *Sched) fireTimer(tm *timer) {
 	s.mix(uint64(tm.when) ^ 0x9e3779b97f4a7c15)
 	if s.trace != nil {
 		s.traceStr(fmt.Sprintf("%d timer @%v %s", s.step, s.now, tm.site))
+	}
+	if s.cfg.Races {
+		vc := tm.vc.clone()
+		s.envVC = &vc
+		tm.fire(s)
+		s.envVC = nil
+		return
 	}
 	tm.fire(s)
 }
